@@ -53,6 +53,8 @@ pub struct EnvP {
     pub dpanic: Option<u64>,
     pub afail: Option<u64>,
     pub afrom: Option<u64>,
+    /// an unlawful hasher or `Eq` was active at some point of this scenario
+    pub tainted: bool,
 }
 
 impl EnvP {
@@ -83,6 +85,9 @@ impl EnvP {
                 "afrom" => self.afrom = opt(v),
                 _ => {}
             }
+        }
+        if self.hash_mix.is_some() || self.eq_mix.is_some() {
+            self.tainted = true;
         }
     }
 }
